@@ -330,7 +330,26 @@ class S:
         self.ptrs.append(i)
         if len(self.ptrs) >= 2:
             # the pointer of the compaction before this one is installed now
-            self.floor = self.ptrs[-2] + 1
+            self.floor = max(self.floor, self.ptrs[-2] + 1)
+
+    def install(self):
+        """a snapshot of the leader is installed: onto a log that ends below it, at it, beyond it, or onto no log at all"""
+        r = self.rng
+        if self.nxt is None:
+            i = r.choice([self.start, self.start + 6])
+        else:
+            lo = max([self.floor] + [p + 1 for p in self.ptrs[-1:]])
+            cands = [self.nxt - 1, self.nxt + r.choice([0, 4, 200])]
+            if lo < self.nxt:
+                cands += [r.randrange(lo, self.nxt), r.randrange(lo, self.nxt)]
+            i = max(r.choice(cands), lo)
+        if r.random() < 0.3:
+            self.term += 1
+        self.ops.append("inst %d %d" % (i, self.term))
+        if r.random() < 0.5:
+            self.ops.append("cat")
+        self.nxt = i + 1
+        self.floor = i + 1
 
     def look(self):
         r = self.rng
@@ -381,11 +400,24 @@ def gen_store(rng, tier, mode):
                 s.compact()
             elif r < sum(w[:5]):
                 s.bad_append()
+            elif rng.random() < 0.25:
+                s.install()
             else:
                 s.look()
         s.check(False)
         s.check(True)
         cases.append(Case("store-%d" % i, s.ops, True, "random"))
+    # directed: a snapshot installed onto a log that ends below it (F28), reaches beyond it (F29), ends on it, and onto no
+    # log at all; the leader's next entries are appended, read back, the store reopened, and cut back to the pointer
+    for geom in [(4, 64), (3, 100), None]:
+        for name, pre, at in (("behind", 30, 75), ("longer", 30, 12), ("exact", 30, 30), ("fresh", 0, 9), ("longer-2files", 70, 50)):
+            ops = ["open" + (" geom=%d,%d" % geom if geom else "")]
+            if pre:
+                ops += ["b 1 1 %d 5 0" % pre, "last"]
+            ops += ["inst %d 2" % at, "cat", "last", "get 0 100000", "a %d 2 5 500" % (at + 2), "a %d 2 5 501" % (at + 1),
+                    "b %d 3 50 5 502" % (at + 2), "last", "get 0 100000", "cat", "reopen", "last", "get 0 100000", "cat",
+                    "del %d" % (at + 1), "last", "a %d 4 7 600" % (at + 1), "get 0 100000", "reopen", "last", "get 0 100000"]
+            cases.append(Case("install-%s-%s" % (name, "%d_%d" % geom if geom else "default"), ops, True, "boundary"))
     # directed: a cut in every file of a three-file log and on the file boundaries, then re-append and reopen
     for geom in [(4, 64), (3, 100)]:
         probe = S(rng, geom)
